@@ -12,7 +12,12 @@ import re
 
 from . import common
 
-PROOFS = ["proofs/AntsStepsProofs.v", "models/AntsSteps.v", "proofs/RaceAntsProofs.v", "models/RaceAnts.v"]
+PROOFS = ["proofs/AntsStepsProofs.v", "models/AntsSteps.v", "proofs/RaceAntsProofs.v", "models/RaceAnts.v",
+          "proofs/RaceAntsInv.v", "proofs/RaceAntsCases.v",
+          # D21: decision / outcome / counting invariants of the step model (all runs)
+          "proofs/AntsStepsDecide.v", "proofs/AntsStepsOutcome.v", "proofs/AntsStepsCount.v", "proofs/AntsStepsCountN.v",
+          "proofs/AntsStepsProv.v", "proofs/AntsStepsProv2.v", "proofs/AntsStepsKeep.v",
+          "proofs/AntsStepsRefine.v", "proofs/AntsStepsRefine2.v"]
 FT_ENV = dict(os.environ, GOMAXPROCS="2")
 
 # timeouts (ns) of the Send ops of a case, by global Send index: pairwise distinct, no small sum of
